@@ -168,8 +168,8 @@ def converges(truth_i, c, active):
             except AssertionError:
                 return True  # an unresolvable target is reported as an error every time: nothing is written (C20 covers the files)
             snaps.append(fs.snapshot())
-        if snaps[1] == snaps[2]:
-            return True
+        if snaps[0] == snaps[1] == snaps[2]:
+            return True  # the first run did everything; the second and third change nothing
         if method and "KF-C09-method-created-toplevel" in active:
             # Class.method is never found when it is absent (or when a function precedes the class: KF-C15-fnskip): appended on every run
             return True
@@ -194,7 +194,7 @@ def obligations(tier, seed):
         obs.append(Ob(name="converges_truth_%s" % KINDS[t], params=[("c", "int")], pre=["0 <= c < %d" % len(C11.TABLE)],
                       body="H.converges(%d, c, {ACTIVE})" % t, witness=(C11.TABLE.index(((t + 1) % 3, 0, 1, 1, "agreeing", 0)),), kind="F",
                       bounds="truth %s; the %d target-module configurations of C11 (surroundings x position x trailing newline x pre-state x "
-                      "function|method); three runs: the third must not change any byte" % (KINDS[t], len(C11.TABLE)),
+                      "function|method); three runs: the second and third must not change any byte (method targets: see KF-C09-method-created-toplevel)" % (KINDS[t], len(C11.TABLE)),
                       timeout=280 if tier == "quick" else 1200, path_timeout=120, funcs=FUNCS))
     obs.append(Ob(name="shared_truth_file", params=[("t", "int"), ("o", "int"), ("st", "int")], pre=["0 <= t <= 2 and 0 <= o <= 2", "0 <= st <= 2"],
                   body="H.shared_file(t, o, st, {ACTIVE})", witness=(1, 0, 1), kind="F",
